@@ -23,6 +23,13 @@ def step (release : Bool) (line : String) : Bool × String :=
   match Drv.words line with
   | ["mode", "release"] => (true, "ok")
   | ["mode", "debug"] => (false, "ok")
+  | "sleep" :: req :: rest =>
+    match req.toNat?, parseResp rest with
+    | some req, some script =>
+      let (r, slept, calls) := sleepLoop script req 0 0
+      let rs := match r with | some true => "ok" | some false => "err" | none => "looping"
+      (release, s!"{rs} {slept} {calls}")
+    | _, _ => (release, "bad-op")
   | [op, a, b, c, d] =>
     match a.toInt?, b.toInt?, c.toInt?, d.toInt? with
     | some a, some b, some c, some d =>
@@ -35,13 +42,6 @@ def step (release : Bool) (line : String) : Bool × String :=
         | _ => "bad-op"
       (release, out)
     | _, _, _, _ => (release, "bad-op")
-  | "sleep" :: req :: rest =>
-    match req.toNat?, parseResp rest with
-    | some req, some script =>
-      let (r, slept, calls) := sleepLoop script req 0 0
-      let rs := match r with | some true => "ok" | some false => "err" | none => "looping"
-      (release, s!"{rs} {slept} {calls}")
-    | _, _ => (release, "bad-op")
   | _ => (release, "bad-op")
 
 def main : IO Unit := Drv.run step false
